@@ -356,11 +356,14 @@ def ssh1_crc32_fast(data):
     return (zlib.crc32(data, 0xffffffff) ^ 0xffffffff) & 0xffffffff
 
 
-def ssh1_packet(ptype, data, bad_crc=False):
+def ssh1_packet(ptype, data, bad_crc=False, random_pad=False):
     body = bytes([ptype]) + data
     length = len(body) + 4
     padlen = 8 - length % 8
     pad = b'\x00' * padlen
+    if random_pad:
+        # protocol 1.5: "padding: random data" - what real servers send once encryption is on; zeros are only what OpenSSH sends before
+        pad = bytes(b | 1 for b in hashlib.sha256(b'pad' + body).digest()[:padlen])
     crc = ssh1_crc32_fast(pad + body)
     if bad_crc:
         crc ^= 0x1
